@@ -190,6 +190,9 @@ def unary_program(storage='local', const_vals=None):
     body.append('byte[] q8 = [10, 11, 12, 13, 14, 15, 16, 17]; q8[(((a % 8) + 8) % 8 + 256) is byte] += 100; write(q8[((a % 8) + 8) % 8] is int); write(\' \');')
     body.append('q8[(((a % 8) + 8) % 8 + 512) is byte] = \'z\'; write(q8[((a % 8) + 8) % 8]); int[] q4 = [1, 2, 3, 4]; q4[(((a % 4) + 4) % 4 + 256) is byte] *= 5; write(q4[((a % 4) + 4) % 4]); write(\' \');')
     body.append('int vb[(((a % 4) + 4) % 4 + 257) is byte]; write(vb.length); bool vf[(((a % 4) + 4) % 4 + 513) is byte]; write(vf.length); write(\' \');')
+    # compound assignment on a byte target works on the int values and narrows the RESULT (x /= 300 is x = (x / 300) is byte)
+    body.append('byte cb1 = a is byte; cb1 /= 300; write(cb1 is int); byte cb2 = a is byte; cb2 %= 256; write(\' \'); write(cb2 is int); byte cb3 = a is byte; cb3 += 300; write(\' \'); write(cb3 is int); '
+                'byte[] ce = [a is byte, 7]; ce[0] /= 257; ce[1] %= 300; write(\' \'); write(ce[0] is int); write(ce[1] is int); byte cb4 = a is byte; cb4 *= 257; write(\' \'); write(cb4 is int); write(\' \');')
     text = '\n    '.join(body)
     if storage == 'const':
         # the same applications on compile-time constants (the type checker substitutes `const` scalars and folds the
@@ -213,6 +216,8 @@ def unary_expected(sem, vals):
         out += fmt(t) + fmt(a & 0xFF != 0) + fmt(t) + fmt(t)
         k8, k4 = a % 8, a % 4
         out += fmt((10 + k8 + 100) & 0xFF) + b' ' + b'z' + fmt(sem.wrap((k4 + 1) * 5)) + b' ' + fmt(k4 + 1) + fmt(k4 + 1) + b' '
+        ab = a & 0xFF
+        out += fmt((ab // 300) & 0xFF) + b' ' + fmt((ab % 256) & 0xFF) + b' ' + fmt((ab + 300) & 0xFF) + b' ' + fmt((ab // 257) & 0xFF) + fmt((7 % 300) & 0xFF) + b' ' + fmt((ab * 257) & 0xFF) + b' '
         out += b'\n'
     return bytes(out)
 
@@ -432,10 +437,10 @@ def run_shard(spec):
             # unbounded integers - the recorded finding fold-nowrap - would show in the truthiness tests)
             half, full = 1 << (8 * word - 1), 1 << (8 * word)
             cvals = CONST_VALS + [half, full - 1, full + 5, -half - 1, 3 * half + 1]
-            jobs = [(f'unary+casts ({st} operands)', unary_program(st, cvals), unary_expected(sem, [sem.wrap(v) for v in cvals]), len(cvals) * (len(UNARY) + 19))]
+            jobs = [(f'unary+casts ({st} operands)', unary_program(st, cvals), unary_expected(sem, [sem.wrap(v) for v in cvals]), len(cvals) * (len(UNARY) + 25))]
             vals = cvals
         else:
-            jobs = [(f'unary+casts ({st} operands)', unary_program(st), unary_expected(sem, vals), len(vals) * (len(UNARY) + 19))]
+            jobs = [(f'unary+casts ({st} operands)', unary_program(st), unary_expected(sem, vals), len(vals) * (len(UNARY) + 25))]
     else:
         jobs = []
         for pos in spec['positions']:
